@@ -182,13 +182,13 @@ Fixpoint rspec_run (n dur : N) (s : rspec) (ops : list (rop O)) (outs : list (ro
 (* value: the quantile clamped to [0, 1] (NaN -> 0); label: "min" for 0, "max" for 1, otherwise "p"
    followed by the characters of the Display rendering [fd] of value*100 without the dot *)
 Definition fnum_eq (a b : Fl) : bool := fle O a b && fle O b a.
-Definition quant_ok (zero one q v : Fl) (label fd : list N) : bool :=
-  (if negb (fle O q q) then fnum_eq v zero
-   else if fle O q zero then fnum_eq v zero
-   else if fle O one q then fnum_eq v one
+Definition quant_ok (q v : Fl) (label fd : list N) : bool :=
+  (if negb (fle O q q) then fnum_eq v (fzero O)
+   else if fle O q (fzero O) then fnum_eq v (fzero O)
+   else if fle O (fone O) q then fnum_eq v (fone O)
    else fsame O v q)
-  && (if fnum_eq v zero then str_eqb label [109; 105; 110]
-      else if fnum_eq v one then str_eqb label [109; 97; 120]
+  && (if fnum_eq v (fzero O) then str_eqb label [109; 105; 110]
+      else if fnum_eq v (fone O) then str_eqb label [109; 97; 120]
       else str_eqb label (112 :: filter (fun c => negb (c =? 46)) fd)
            && negb (existsb (fun c => c =? 46) label)).
 
